@@ -2,6 +2,7 @@
 From Cctp Require Import Lib.Bytes Lib.SMap.
 From Cctp Require Import Model.Codec Model.State Model.Ledger Model.Handlers Model.Chain Model.Queries.
 From Cctp Require Import Proofs.MonadFacts Proofs.FlowFacts Proofs.HistoryFacts.
+From Cctp Require Import Vectors.Examples.
 
 (* For every history of any length from any chain, and every pair (source domain, nonce): at most one
    receive of that pair ever succeeds - whatever the body, recipient, attestation encoding, submitter or
@@ -45,6 +46,10 @@ Proof.
   intros c d n. unfold used. cbn. destruct (mem _ _); split; intros H; try discriminate; eauto.
   destruct H as [r H]. discriminate.
 Qed.
+
+(* non-vacuity: in a concrete chain the same attested message submitted twice is received exactly once *)
+Example C02_example : ok_receives ex_env2 ex_chain2 [([], ex_receive 6); ([], ex_receive 6)] 0 6 = 1.
+Proof. vm_compute. reflexivity. Qed.
 
 Print Assumptions C02_at_most_once.
 Print Assumptions C02_used_stays_used.
